@@ -51,14 +51,18 @@ contract(f"{OD}::HampelFilter.transform", "C12", cases=["values", "bool"], input
 
 
 # ----------------------------------------------------------------------------- Imputer: every rule works on fresh objects
-_IMP_METHODS = ["constant", "ffill", "bfill", "pad", "backfill", "mean", "median", "nearest", "linear"]
+_IMP_METHODS = ["constant", "ffill", "bfill", "pad", "backfill", "mean", "median", "nearest", "linear", "forecaster"]
 
 
 def _imp_inputs(B, case):
     I = B.I
     method, mv = case.split("|")
     ok, cls = I.mod_global(I.src.module("sktime.transformations.series.impute"), "Imputer")
-    obj = I.instantiate(cls, [], {"method": method, "value": B.real("value") if method == "constant" else None,
+    fc = None
+    if method == "forecaster":
+        fc = B.abstract("trend forecaster", isa=("BaseForecaster", "BaseEstimator"))
+        fc.results = {"predict": lambda I2, o, ev: Opaque("in-sample forecast", prov=("predict", o, ev))}
+    obj = I.instantiate(cls, [], {"method": method, "value": B.real("value") if method == "constant" else None, "forecaster": fc,
                                   "missing_values": None if mv == "nan" else B.real("missing_values")})
     obj.attrs["_is_fitted"] = True
     return {"self": obj, "Z": sym_series(B), "X": None}
@@ -118,6 +122,25 @@ def _imp_rule(A, r):
         e = step("fillna", lambda e: e.kwargs.get("value") is agg.result)
     elif method in ("nearest", "linear"):
         e = step("interpolate", lambda e: e.kwargs.get("method") == method)
+    elif method == "forecaster":
+        # auxiliary series for the fit: forward fill, THEN backward fill of the current series (both applied to it, not to the result)
+        base = cur
+        a1 = step("fillna", lambda e: e.kwargs.get("method") == "ffill")
+        if not a1:
+            return False
+        cur = a1.result
+        a2 = step("fillna", lambda e: e.kwargs.get("method") == "backfill")
+        if not a2:
+            return False
+        fc = A.self.attrs["forecaster"]
+        fev = [x for x in trace() if x.obj is fc]
+        if [x.method for x in fev] != ["fit", "predict"] or fev[0].kwargs.get("y") is not a2.result:
+            return False
+        cur = base if base is not None else None          # the forecast fills the gaps of the ORIGINAL (replaced) series
+        if cur is None:
+            # no replace step: the series being filled is the copy that the auxiliary fill started from
+            cur = a1.args[0]
+        e = step("fillna", lambda e: e.kwargs.get("value") is fev[1].result)
     else:
         return False
     if not e:
